@@ -1393,6 +1393,11 @@ class Evaluator:
         if not cands and last:
             # `Self::new(..)` style: the dump records the resolved def path in `path` for most calls
             cands = [p for p in self.by_path if p == path]
+        if not cands and res.get("dk") == "AssocFn" and last != "default" and "{" in str(f.get("ty", "")):
+            # a trait method called by path (`Shape::from(name)`): the type of the callee names the implementation
+            inst = str(f["ty"]).rsplit("{", 1)[1].rstrip("}")
+            if inst in self.by_path:
+                cands = [inst]
         if cands and st["depth"] < self.max_depth and cands[0].startswith(self.inline_prefixes) and cands[0] not in self.opaque:
             sub = self.summary(cands[0], args=args, depth=st["depth"] + 1)
             if sub is not None:
